@@ -74,7 +74,7 @@ func genCase(t *rapid.T) Case {
 	for i := 0; i < n; i++ {
 		kind := "retain"
 		if i > 0 {
-			kind = rapid.SampledFrom([]string{"retain", "read", "read", "read-goroutine", "read-conn", "write", "conn-retain", "conn-retain", "conn-read", "conn-read", "retain-odd", "reserialize", "unmarshal", "answer", "echo", "marshal-echo", "buf-retain", "buf-read", "buf-read"}).Draw(t, "kind")
+			kind = rapid.SampledFrom([]string{"retain", "read", "read", "read-goroutine", "read-conn", "write", "conn-retain", "conn-retain", "conn-read", "conn-read", "retain-odd", "reserialize", "unmarshal", "answer", "echo", "marshal-echo", "buf-retain", "buf-read", "buf-read", "scribble"}).Draw(t, "kind")
 		}
 		var m gen.Msg
 		m.Flags, m.Code, m.App, m.HbH, m.E2E = cat.Header(t)
@@ -109,7 +109,7 @@ func genCase(t *rapid.T) Case {
 		}
 		st := Step{Kind: kind, Msg: m}
 		if kind == "retain-odd" {
-			st.Odd = oddWire(t)
+			st.Odd = oddWire(t, cat)
 		}
 		c.Steps = append(c.Steps, st)
 	}
@@ -119,11 +119,26 @@ func genCase(t *rapid.T) Case {
 // oddWire draws a message the decoder accepts leniently although it is not in canonical form
 // (fixed-width AVPs of other widths, an IPv4-mapped address under family 2, IPv4/IPv6-typed
 // AVPs of other lengths): its re-encoding differs from the bytes received.
-func oddWire(t *rapid.T) []byte {
+func oddWire(t *rapid.T, cat *gen.Catalog) []byte {
 	var nodes []*refcodec.Node
 	n := rapid.IntRange(1, 4).Draw(t, "odd-avps")
 	for i := 0; i < n; i++ {
-		switch rapid.IntRange(0, 4).Draw(t, "odd-kind") {
+		switch rapid.IntRange(0, 6).Draw(t, "odd-kind") {
+		case 5, 6: // an IPv4- / IPv6-typed AVP (generated dictionaries have them) of another length
+			var es []gen.Entry
+			for _, ty := range []string{gen.TIPv4, gen.TIPv6} {
+				es = append(es, cat.EntriesFor(0, ty)...)
+			}
+			if len(es) == 0 {
+				nodes = append(nodes, &refcodec.Node{Code: 264, Flags: 0x40, Payload: []byte("host.example")})
+				continue
+			}
+			e := es[rapid.IntRange(0, len(es)-1).Draw(t, "ip-entry")]
+			nd := &refcodec.Node{Code: e.Code, Flags: 0x40, Vendor: e.Vendor, Payload: rapid.SliceOfN(rapid.Byte(), 0, 20).Draw(t, "ip-odd")}
+			if e.Vendor != 0 {
+				nd.Flags |= 0x80
+			}
+			nodes = append(nodes, nd)
 		case 0:
 			nodes = append(nodes, &refcodec.Node{Code: 278, Flags: 0x40, Payload: rapid.SliceOfN(rapid.Byte(), 0, 11).Draw(t, "u32-odd")})
 		case 1:
@@ -137,7 +152,53 @@ func oddWire(t *rapid.T) []byte {
 			nodes = append(nodes, &refcodec.Node{Code: 264, Flags: 0x40, Payload: []byte("host.example")})
 		}
 	}
-	return refcodec.EncodeMessage(refcodec.Header{Version: 1, Flags: 0x80, Code: 257, HopByHop: gen.U32(t, "hbh"), EndToEnd: gen.U32(t, "e2e")}, nodes, false)
+	code := uint32(257)
+	if _, err := cat.P.FindCommand(0, code); err != nil {
+		for _, cm := range cat.Cmds {
+			if cm.App == 0 && cm.HasReq {
+				code = cm.Code
+				break
+			}
+		}
+	}
+	// the version octet is not validated by the reader: whatever arrived is what the message holds
+	version := rapid.SampledFrom([]uint8{1, 1, 0, 2, 255}).Draw(t, "version")
+	return refcodec.EncodeMessage(refcodec.Header{Version: version, Flags: 0x80, Code: code, HopByHop: gen.U32(t, "hbh"), EndToEnd: gen.U32(t, "e2e")}, nodes, false)
+}
+
+// scribble overwrites, in place, the bytes behind every slice-backed value of the message: what an
+// application may do with the private copy it was given. It reports whether anything was there.
+func scribble(avps []*diam.AVP) bool {
+	did := false
+	for _, a := range avps {
+		switch d := a.Data.(type) {
+		case *diam.GroupedAVP:
+			if d != nil && scribble(d.AVP) {
+				did = true
+			}
+		case datatype.Address:
+			for i := range d {
+				d[i] ^= 0xa5
+				did = true
+			}
+		case datatype.IPv4:
+			for i := range d {
+				d[i] ^= 0xa5
+				did = true
+			}
+		case datatype.IPv6:
+			for i := range d {
+				d[i] ^= 0xa5
+				did = true
+			}
+		case datatype.Unknown:
+			for i := range d {
+				d[i] ^= 0xa5
+				did = true
+			}
+		}
+	}
+	return did
 }
 
 // reusedStruct is a destination the application keeps and fills again for every message; its
@@ -265,6 +326,13 @@ func runCase(c Case) *ev.Failure {
 				r := &retained{step: i, m: m, want: &st.Msg, ref: ref, avps: avpSnapshot(m.AVP, 0)}
 				r.str = m.String()
 				kept = append(kept, r)
+			}
+		case "scribble":
+			// the application changes, in place, the values of ONE message it kept (its private
+			// copy); that message leaves the set that is watched, every other must stay as it was
+			if len(kept) > 0 {
+				scribble(kept[0].m.AVP)
+				kept = kept[1:]
 			}
 		case "marshal-echo":
 			// the same through Marshal: a struct whose []*diam.AVP field holds the AVPs of a kept message
@@ -457,7 +525,7 @@ func readThroughConn(p *dict.Parser, ref []byte, step int) *ev.Failure {
 
 var prop = ev.Register(&ev.Prop[Case]{
 	ID: "C06", Name: "retained",
-	Rule: "histories of {retain a decoded message, retain a message delivered by a long-lived library-served connection while that connection goes on receiving, read other content on the same goroutine / another goroutine / through a fresh or the same library-served in-memory connection, read / retain from one bytes.Buffer that the application refills, WriteTo, re-serialise, Unmarshal into a reused struct, Answer, echo the AVPs of a retained message into an answer with AddAVP / InsertAVP or through Marshal of a []*diam.AVP field, retain a non-canonical wire image} with messages made of slice-backed types (Address IPv4/IPv6/other, IPv4, IPv6, OctetString, undefined codes, groups of them) on both sides of the 1 KiB pooled buffer; after EVERY step every retained message must still equal the abstract message it was decoded from (tree, re-serialisation, rendering, and the snapshot of code / flags / vendor id / Length / value bytes of every AVP taken when it was decoded); non-trivial = a retained message with a slice-backed value and body <= 1024 followed by a later read with body <= 1024",
+	Rule: "histories of {retain a decoded message, retain a message delivered by a long-lived library-served connection while that connection goes on receiving, read other content on the same goroutine / another goroutine / through a fresh or the same library-served in-memory connection, read / retain from one bytes.Buffer that the application refills, WriteTo, re-serialise, Unmarshal into a reused struct, Answer, echo the AVPs of a retained message into an answer with AddAVP / InsertAVP or through Marshal of a []*diam.AVP field, retain a non-canonical wire image (other widths of fixed-width, IPv4 and IPv6 AVPs, version octet 0 / 2 / 255), overwrite in place the slice-backed values of one retained message (the others must not change)} with messages made of slice-backed types (Address IPv4/IPv6/other, IPv4, IPv6, OctetString, undefined codes, groups of them) on both sides of the 1 KiB pooled buffer; after EVERY step every retained message must still equal the abstract message it was decoded from (tree, re-serialisation, rendering, and the snapshot of code / flags / vendor id / Length / value bytes of every AVP taken when it was decoded); non-trivial = a retained message with a slice-backed value and body <= 1024 followed by a later read with body <= 1024",
 	Gen:  genCase, Run: runCase,
 	Classify: func(c Case) (bool, []string) {
 		var cl []string
@@ -494,6 +562,38 @@ var prop = ev.Register(&ev.Prop[Case]{
 
 func TestC06Retained(t *testing.T) { prop.Check(t, 1500, 50000) }
 func TestC06Keep(t *testing.T)     { ev.RunKeep(t, "C06") }
-func TestReplay(t *testing.T)      { ev.Replay(t) }
+
+// Two kept messages that both carry IPv4 / IPv6 / Address AVPs of an unusual width (what the
+// decoder stands in for such a payload must be as private as any other value), then the
+// application overwrites the values of the first: the second must not change.
+func TestC06PrivateCopiesOfOddValues(t *testing.T) {
+	f := gen.FixedCodecDict()
+	dc := gen.DictChoice{Name: "generated", Gen: &f}
+	_, cat, err := dc.Load()
+	if err != nil {
+		t.Fatalf("harness: %v", err)
+	}
+	code := func(typ string) uint32 { return cat.EntriesFor(0, typ)[0].Code }
+	wire := func(n4, n6, na int, hbh uint32) []byte {
+		return refcodec.EncodeMessage(refcodec.Header{Version: 1, Flags: 0x80, Code: 300, HopByHop: hbh, EndToEnd: 9},
+			[]*refcodec.Node{{Code: code(gen.TIPv4), Flags: 0x40, Payload: make([]byte, n4)}, {Code: code(gen.TIPv6), Flags: 0x40, Payload: make([]byte, n6)},
+				{Code: code(gen.TAddress), Flags: 0x40, Payload: refcodec.Address(8, make([]byte, na))}}, false)
+	}
+	plain := gen.Msg{Flags: 0x80, Code: 300, HbH: 1, E2E: 2}
+	prop.Enumerate(t, false, func(yield func(Case) bool) {
+		for _, n4 := range []int{0, 3, 4, 5, 16} {
+			for _, n6 := range []int{0, 4, 15, 16, 17} {
+				for _, na := range []int{0, 1, 2, 6, 18} {
+					c := Case{Dict: dc, Steps: []Step{{Kind: "retain-odd", Msg: plain, Odd: wire(n4, n6, na, 1)}, {Kind: "retain-odd", Msg: plain, Odd: wire(n4, n6, na, 2)},
+						{Kind: "scribble", Msg: plain}, {Kind: "retain-odd", Msg: plain, Odd: wire(n4, n6, na, 3)}, {Kind: "scribble", Msg: plain}, {Kind: "read", Msg: plain}}}
+					if !yield(c) {
+						return
+					}
+				}
+			}
+		}
+	})
+}
+func TestReplay(t *testing.T) { ev.Replay(t) }
 
 var _ = fmt.Sprint
